@@ -114,8 +114,8 @@ def observe(s):
     if tr[0] == 'ok':
         tr = ('ok', [list(t) for t in tr[1]])
     try:
-        toks = _tokens(s, PENMAN_RE)
-        ttoks = _tokens(s, TRIPLE_RE)
+        toks = timed(_tokens, s, PENMAN_RE, seconds=_budget(5))
+        ttoks = timed(_tokens, s, TRIPLE_RE, seconds=_budget(5))
     except BaseException as e:           # noqa  (the lexer is C08's business; report, do not crash)
         toks, ttoks = None, None
     return (s, p, ip, tr, toks, ttoks, triple_automaton(ttoks) if ttoks is not None else None)
